@@ -65,17 +65,27 @@ Fixpoint body_trees (emp : bool) (l : list fstmt) : list stmt :=
 Definition cb_tree (cb : cblock) : option tree * block :=
   match cb with CBlock c _ b => (Some (fexpr_tree c), blk_of (body_trees false b)) end.
 
-(* fuel: parseStatement at fuel f handles a statement of size <= f *)
+(* fuel: parseStatement at fuel f handles a statement of size <= f.  A blank statement that the
+   formatter squeezes away costs nothing (it produces no token and no turn of a parser loop). *)
 Fixpoint sz (st : fstmt) : nat :=
-  let szl := fix szl (l : list fstmt) : nat := match l with [] => 0 | x :: t => S (sz x + szl t) end in
+  let szb := fix szb (e : bool) (l : list fstmt) : nat :=
+    match l with
+    | [] => 0
+    | x :: t => if is_blank x then (if e then szb true t else S (szb true t)) else S (sz x + szb false t)
+    end in
   match st with
   | FmtAst.SIf (CBlock _ _ b) elifs els _ =>
-      S (S (szl b + (fix go (l : list cblock) : nat := match l with [] => 0 | CBlock _ _ b :: r => S (szl b + go r) end) elifs
-            + match els with Some (_, b) => S (szl b) | None => 0 end))
-  | FmtAst.SWhile _ _ b _ | FmtAst.SFor _ _ _ b _ | FmtAst.SFunc _ _ _ _ _ b _ | FmtAst.SOn _ _ _ b _ => S (S (szl b))
+      S (S (szb false b + (fix go (l : list cblock) : nat := match l with [] => 0 | CBlock _ _ b :: r => S (szb false b + go r) end) elifs
+            + match els with Some (_, b) => S (szb false b) | None => 0 end))
+  | FmtAst.SWhile _ _ b _ | FmtAst.SFor _ _ _ b _ | FmtAst.SFunc _ _ _ _ _ b _ | FmtAst.SOn _ _ _ b _ => S (S (szb false b))
   | _ => 1
   end.
-Fixpoint szl (l : list fstmt) : nat := match l with [] => 0 | x :: t => S (sz x + szl t) end.
+Fixpoint szb (e : bool) (l : list fstmt) : nat :=
+  match l with
+  | [] => 0
+  | x :: t => if is_blank x then (if e then szb true t else S (szb true t)) else S (sz x + szb false t)
+  end.
+Notation szl := (szb false).
 
 Lemma stmt_tree_while c ch b ce : stmt_tree (FmtAst.SWhile c ch b ce) = Parser.SWhile (Some (fexpr_tree c)) (blk_of (body_trees false b)).
 Proof. reflexivity. Qed.
@@ -370,7 +380,7 @@ Section Blocks.
 
   Definition P_boks (fr : frs) (G : ctx) (t e : bool) (body : list fstmt) : Prop :=
     forall lvl f fuel els acc s endq tk r',
-      szl body <= f -> List.length body < fuel ->
+      szb e body <= f -> szb e body < fuel ->
       skip1 endq = tk :: r' -> at_end els (ttype tk) = true ->
       ST s (skip1 (body_toks (S lvl) e body ++ endq)) G fr ->
       exists s' G', block_loop (parse_statement B f) fuel els acc t s
@@ -404,12 +414,11 @@ Section Blocks.
   Lemma P_boks_blank fr G t e rest : boks fr G t true rest -> P_boks fr G t true rest -> P_boks fr G t e (FmtAst.SEmpty [] :: rest).
   Proof.
     intros Hb IH lvl f fuel els acc s endq tk r' Hf Hfu Hend Hat HST.
-    rewrite body_toks_blank in HST. cbn [szl sz] in Hf. cbn [List.length] in Hfu.
-    assert (Hf' : szl rest <= f) by lia.
+    rewrite body_toks_blank in HST. cbn [szb is_blank is_empty] in Hf, Hfu.
     destruct e.
     - (* the formatter writes nothing *)
       cbn [app] in HST. cbn [body_trees is_blank is_empty].
-      destruct (IH lvl f fuel els acc s endq tk r' Hf' ltac:(lia) Hend Hat HST) as (s' & G' & P & Q). exists s', G'. split; [exact P|exact Q].
+      destruct (IH lvl f fuel els acc s endq tk r' Hf Hfu Hend Hat HST) as (s' & G' & P & Q). exists s', G'. split; [exact P|exact Q].
     - cbn [app skip1 is_ws ttype mk] in HST. cbn [body_trees is_blank is_empty].
       destruct fuel as [|fuel]; [lia|].
       cbn [block_loop]. rewrite (ST_ct _ _ _ _ _ HST). cbn [ttype mk].
@@ -431,7 +440,7 @@ Section Blocks.
     intros Hbl Hso Hst Hsc Hb IH lvl f fuel els acc s endq tk r' Hf Hfu Hend Hat HST.
     rewrite (body_toks_cons lvl e st rest Hbl) in HST. cbn [app skip1 is_ws ttype mk] in HST.
     rewrite <- app_assoc in HST. cbn [app] in HST.
-    cbn [szl] in Hf. cbn [List.length] in Hfu.
+    cbn [szb] in Hf, Hfu. rewrite Hbl in Hf, Hfu.
     set (X' := body_toks (S lvl) false rest ++ endq) in *.
     assert (Hn : is_ws (look0 (skip1 X')) = false).
     { apply (body_no_ws lvl endq) with (fr := fr) (G := G') (t := always_terms (stmt_tree st)); [|exact Hb]. rewrite Hend. exact (at_end_is_ws els tk Hat). }
@@ -480,9 +489,6 @@ Section Blocks.
     intro H. rewrite (filter_unused_nil _ H). reflexivity.
   Qed.
 
-  Lemma length_le_szl body : List.length body <= szl body.
-  Proof. induction body as [|x t IHb]; cbn [List.length szl]; lia. Qed.
-
   Lemma block_rt lvl f els s body endq tk r' G fr :
     boks fr G false false body -> P_boks fr G false false body -> body_trees false body <> [] ->
     S (szl body) <= f -> skip1 endq = tk :: r' -> at_end els (ttype tk) = true ->
@@ -491,9 +497,7 @@ Section Blocks.
                   ST s3 (tk :: r') G' fr /\ frame_used G'.
   Proof.
     intros Hb IH Hne Hf Hend Hat HST.
-    assert (Hlen : List.length body < f).
-    { pose proof (length_le_szl body). lia. }
-    destruct (IH lvl f f els [] s endq tk r' ltac:(lia) Hlen Hend Hat HST) as (s3 & G' & P & HST3 & Hu).
+    destruct (IH lvl f f els [] s endq tk r' ltac:(lia) ltac:(lia) Hend Hat HST) as (s3 & G' & P & HST3 & Hu).
     exists s3, G'. unfold parse_block_with. rewrite P. cbn [rev app orb].
     destruct (body_trees false body) as [|t0 ts] eqn:Et; [contradiction|].
     pose proof HST3 as (_ & _ & _ & _ & A3 & _). rewrite <- A3 in Hu. rewrite (validate_scope_id s3 Hu).
@@ -864,4 +868,82 @@ Section Blocks.
 
   Theorem body_roundtrip : forall fr G t e body, boks fr G t e body -> P_boks fr G t e body.
   Proof. apply (boks_mind P_sok P_coks P_boks); cases. Qed.
+  (* ---------- the statements of a program (parseProgram's loop), without func / on ---------- *)
+  Definition top_fr : frs := [(false, false, false)].
+
+  (* like boks, at indentation 0 and with parseProgram's stricter rule: nothing at all may follow a
+     statement that always terminates, so no top-level statement does *)
+  Inductive poks : ctx -> bool -> list fstmt -> ctx -> Prop :=
+  | poks_nil G e : poks G e [] G
+  | poks_blank G e rest Gout : poks G true rest Gout -> poks G e (FmtAst.SEmpty [] :: rest) Gout
+  | poks_cons G e st rest G' Gout : is_blank st = false -> sok top_fr G st -> always_terms (stmt_tree st) = false ->
+      scope_stmt TB (stmt_tree st) G = Some G' -> poks G' false rest Gout -> poks G e (st :: rest) Gout.
+
+  Lemma body_toks_cons0 e st rest : is_blank st = false ->
+    body_toks 0 e (st :: rest) = toks_of_pieces (fmt_stmt fx 0 st) ++ mk T_NL :: body_toks 0 false rest.
+  Proof.
+    intro Hb. unfold body_toks. cbn [map stmts_loop]. rewrite Hb.
+    rewrite !toks_app. cbn [toks_of_pieces flat_map tok_of_piece app]. reflexivity.
+  Qed.
+
+  Lemma prog_no_ws : forall body G e Gout, poks G e body Gout -> is_ws (look0 (skip1 (body_toks 0 e body))) = false.
+  Proof.
+    induction body as [|st rest IH]; intros G e Gout H; [reflexivity|].
+    inversion H as [| ? ? ? ? Hr | ? ? ? ? ? ? Hbl Hso Hat Hsc Hnx]; subst.
+    - rewrite body_toks_blank. destruct e; cbn [app]; [eapply IH; eassumption | reflexivity].
+    - rewrite (body_toks_cons0 e st rest Hbl).
+      destruct (sok_head _ _ _ 0 Hso) as (t0 & ts & -> & Hs). cbn [app skip1].
+      assert (W : is_ws t0 = false) by (unfold start_tok in Hs; unfold is_ws; destruct (ttype t0); try contradiction; reflexivity).
+      rewrite W. cbn [look0 hd]. exact W.
+  Qed.
+
+  Lemma skip1_start t l : start_tok t -> skip1 (t :: l) = t :: l.
+  Proof. intro Hs. cbn [skip1]. unfold start_tok in Hs. unfold is_ws. destruct (ttype t); try contradiction; reflexivity. Qed.
+
+  Theorem program_loop_roundtrip : forall G e body Gout, poks G e body Gout ->
+    forall fuel acc s, szb e body < fuel -> ST s (skip1 (body_toks 0 e body)) G top_fr ->
+    exists s', program_loop B fuel acc false s = Ok (rev acc ++ body_trees e body) s' /\ ST s' [] Gout top_fr.
+  Proof.
+    induction 1 as [G e | G e rest Gout Hp IH | G e st rest G' Gout Hbl Hso Hat Hsc Hp IH]; intros fuel acc s Hfu HST.
+    - destruct fuel as [|fuel]; [lia|]. cbn [body_toks stmts_loop map toks_of_pieces flat_map skip1] in HST.
+      exists s. cbn [program_loop body_trees]. rewrite app_nil_r.
+      assert (Hc : ct s = T_EOF) by (destruct HST as ((Hr & _) & _); unfold ct, cur_t, cur; rewrite Hr; reflexivity).
+      rewrite Hc. split; [reflexivity|exact HST].
+    - rewrite body_toks_blank in HST. cbn [szb is_blank is_empty] in Hfu. destruct e.
+      + cbn [app] in HST. cbn [body_trees is_blank is_empty]. exact (IH fuel acc s Hfu HST).
+      + cbn [app skip1 is_ws ttype mk] in HST. cbn [body_trees is_blank is_empty].
+        destruct fuel as [|fuel]; [lia|]. cbn [program_loop]. rewrite (ST_ct _ _ _ _ _ HST). cbn [ttype mk].
+        destruct fuel as [|fuel]; [lia|].
+        rewrite (parse_statement_nl (S fuel) s ltac:(lia) (ST_ct _ _ _ _ _ HST)).
+        pose proof (ST_adv _ _ _ _ _ HST (prog_no_ws rest G true Gout Hp)) as HST'.
+        destruct (IH (S fuel) (Parser.SEmpty :: acc) (adv s) ltac:(lia) HST') as (s' & P & Q).
+        exists s'. split; [|exact Q]. cbn [always_terms]. rewrite P. cbn [rev]. rewrite <- app_assoc. reflexivity.
+    - rewrite (body_toks_cons0 e st rest Hbl) in HST.
+      destruct (sok_head top_fr G st 0 Hso) as (t0 & ts & Ht & Hs). rewrite Ht in HST. cbn [app] in HST.
+      rewrite (skip1_start t0 _ Hs) in HST.
+      cbn [szb] in Hfu. rewrite Hbl in Hfu. destruct fuel as [|fuel]; [lia|].
+      pose proof (stmt_roundtrip top_fr G st Hso) as Hst.
+      assert (HST0 : ST s (toks_of_pieces (fmt_stmt fx 0 st) ++ mk T_NL :: body_toks 0 false rest) G top_fr) by (rewrite Ht; exact HST).
+      destruct (Hst 0 fuel s (body_toks 0 false rest) ltac:(lia) HST0 (prog_no_ws rest G' false Gout Hp)) as (s1 & P & A1 & P1).
+      destruct (ST_post fuel s _ G top_fr (stmt_tree st) s1 _ HST0 P A1 P1) as (G'' & Hsc' & HST1).
+      rewrite Hsc in Hsc'. injection Hsc' as <-.
+      cbn [program_loop]. rewrite (ST_ct _ _ _ _ _ HST).
+      assert (Hd : forall X Y Z : PR (list stmt), match ttype t0 with T_EOF => X | T_FUNC => Y | T_ON => Z | _ =>
+                     pdo (r, s1) <- parse_statement B fuel s;
+                     match r with
+                     | None => program_loop B fuel acc false s1
+                     | Some st0 => if false then program_loop B fuel acc false (serr_at K_unreachable (pos s) s1)
+                                   else program_loop B fuel (st0 :: acc) (always_terms st0) s1
+                     end end =
+                     pdo (r, s1) <- parse_statement B fuel s;
+                     match r with
+                     | None => program_loop B fuel acc false s1
+                     | Some st0 => program_loop B fuel (st0 :: acc) (always_terms st0) s1
+                     end).
+      { intros X Y Z. unfold start_tok in Hs. destruct (ttype t0); try contradiction; reflexivity. }
+      rewrite Hd. rewrite P. cbv beta iota. rewrite Hat.
+      destruct (IH fuel (stmt_tree st :: acc) s1 ltac:(lia) HST1) as (s' & P2 & Q).
+      exists s'. split; [|exact Q]. rewrite P2. cbn [body_trees]. rewrite Hbl. cbn [rev]. rewrite <- app_assoc. reflexivity.
+  Qed.
+
 End Blocks.
